@@ -1,7 +1,7 @@
 """C11 - cw20-ics20: escrow always covers outstanding vouchers, channel by channel."""
 from ..engine import show, OPTION
-from ..idioms import dispatch, entry_points, loaded_from, nf, walk, response_entries, NF, update_base, field_of
-from .icscommon import CRATE, SENDER, items, ack_kind, state_delta, payout_parts
+from ..idioms import dispatch, entry_points, loaded_from, nf, walk, response_entries, NF, update_base, field_of, decided_ints
+from .icscommon import CRATE, SENDER, items, ack_kind, state_delta, payout_parts, denom_kind, token_matches
 
 ID = "C11"
 RULES = {
@@ -89,13 +89,13 @@ def run(ctx):
                             if ename in chan_of and C != wantC:
                                 prob = "reduction on channel %s, not the packet's own channel %s" % (show(C)[:100], show(wantC)[:100])
                             elif pp["kind"] == "native":
-                                nat = any(c[0][0] == "call" and c[0][1].endswith("starts_with") and c[0][2][0] == D and c[1] is False for c in p.conds)
+                                nat = denom_kind(p, D)[0] == "native"
                                 if pp["denom"] != D or not nat:
                                     prob = "native payout of denom %s but the reduction was on %s (native decision: %s)" % (show(pp["denom"])[:80], show(D)[:80], nat)
                             else:
-                                cw = any(c[0][0] == "call" and c[0][1].endswith("starts_with") and c[0][2][0] == D and c[0][2][1] == ("str", "cw20:") and c[1] is True for c in p.conds)
+                                dk, how = denom_kind(p, D)
                                 tok = pp["token"]
-                                if not (cw and tok[0] == "vfield" and tok[1][0] == "call" and tok[1][1].endswith("::get") and tok[1][2][0] == D):
+                                if not (dk == "cw20" and token_matches(tok, how, D)):
                                     prob = "cw20 payout from token %s is not the token named by the reduced denom %s" % (show(tok)[:100], show(D)[:80])
                     if prob is None and ename == "ibc_packet_receive":
                         if pp["how"] != "reply_on_error" or pp["reply_id"] is None:
@@ -147,12 +147,12 @@ def run(ctx):
     # reply id agreement
     undo_ids = ctx.cache.get("undo_ids", set())
     for key, rid, sites in other_ids:
-        clash = rid is not None and rid[0] == "lit" and ("=", rid[1]) in undo_ids
+        clash = rid is not None and rid[0] == "lit" and rid[1] in undo_ids
         ctx.ob("R11.6", key + "/refund reply id is not an undo id", not clash, sites=sites,
                detail="the refund sub-message replies with id %s, on which reply() adds REPLY_ARGS.amount back to "
                       "(REPLY_ARGS.channel, REPLY_ARGS.denom): a failed refund replays the stale arguments of an earlier receive"
                       % (show(rid) if rid else None), sample={"reply_id": show(rid) if rid else None})
-    ctx.ob("R11.4", "reply id of the receive payout = id undone in reply", recv_id is not None and recv_id[0] == "lit" and ("=", recv_id[1]) in undo_ids,
+    ctx.ob("R11.4", "reply id of the receive payout = id undone in reply", recv_id is not None and recv_id[0] == "lit" and recv_id[1] in undo_ids,
            detail="receive payout replies with id %s but reply() undoes on ids %s" % (show(recv_id) if recv_id else None, sorted(undo_ids)),
            sample={"id": show(recv_id) if recv_id else None})
 
@@ -161,20 +161,39 @@ def check_prefix(ctx, p, key, i, e):
     D = e.key[1][1]
     good = False
     why = "local denom %s is not the third segment of the packet denom" % show(D)[:120]
+    src = ("field", ("field", ("param", "msg"), "packet"), "src")
+
+    def eq_true(x, y):
+        return any(c[0][0] == "cmp" and c[0][1] == "eq" and set((c[0][2], c[0][3])) == set((x, y)) and c[1] is True and c[3] <= i for c in p.conds)
     if D[0] == "call" and D[1].endswith("Index>::index") and D[2][1] == ("lit", 2):
+        # collected form: parts = denom.splitn(3, '/').collect(); parts.len() == 3; parts[0], parts[1], parts[2]
         segs = D[2][0]
-        pk = None
-        for x in walk(segs):
-            if x[0] == "field" and x[2] == "denom":
-                pk = x
-        src = ("field", ("field", ("param", "msg"), "packet"), "src")
+
         def seg(n):
             return ("call", D[1], (segs, ("lit", n)))
-        c3 = any(c[0][0] == "cmp" and c[0][1] == "eq" and set((c[0][2], c[0][3])) == set((("call", "len", (segs,)), ("lit", 3))) and c[1] is True and c[3] <= i for c in p.conds)
-        cp = any(c[0][0] == "cmp" and c[0][1] == "eq" and set((c[0][2], c[0][3])) == set((seg(0), ("field", src, "port_id"))) and c[1] is True and c[3] <= i for c in p.conds)
-        cc = any(c[0][0] == "cmp" and c[0][1] == "eq" and set((c[0][2], c[0][3])) == set((seg(1), ("field", src, "channel_id"))) and c[1] is True and c[3] <= i for c in p.conds)
+        c3 = eq_true(("call", "len", (segs,)), ("lit", 3))
+        cp = eq_true(seg(0), ("field", src, "port_id"))
+        cc = eq_true(seg(1), ("field", src, "channel_id"))
         good = c3 and cp and cc
         why = "voucher accepted without all prefix decisions (3 segments: %s, port == packet.src.port_id: %s, channel == packet.src.channel_id: %s)" % (c3, cp, cc)
+    elif D[0] == "vfield" and D[2] == "Some" and D[1][0] == "calli" and D[1][1] == "next":
+        # streamed form: it = denom.splitn(3, '/'); it.next(), it.next(), it.next() all Some
+        it2 = D[1][2][0]
+        if it2[0] == "call" and it2[1] == "advance" and it2[2][0][0] == "call" and it2[2][0][1] == "advance":
+            it0 = it2[2][0][2][0]
+            it1 = it2[2][0]
+            split3 = it0[0] == "call" and it0[1].endswith("splitn") and len(it0[2]) == 3 and it0[2][1] == ("lit", 3) and it0[2][2] == ("lit", "/")
+
+            def seg_of(itk):
+                for c in p.conds:
+                    if c[0][0] == "calli" and c[0][1] == "next" and c[0][2][0] == itk and c[1] == "Some" and c[3] <= i:
+                        return ("vfield", c[0], "Some", "0")
+                return None
+            s0, s1 = seg_of(it0), seg_of(it1)
+            cp = s0 is not None and eq_true(s0, ("field", src, "port_id"))
+            cc = s1 is not None and eq_true(s1, ("field", src, "channel_id"))
+            good = split3 and cp and cc
+            why = "voucher accepted without all prefix decisions (splitn(3, '/'): %s, port == packet.src.port_id: %s, channel == packet.src.channel_id: %s)" % (split3, cp, cc)
     ctx.ob("R11.5", key + "/voucher prefix", good, detail=why, sites=[e.site], sample={"denom": show(D)[:160]})
 
 
@@ -212,13 +231,13 @@ def check_escrow(ctx, p, key, variant, i, e, o, t, CHINFO):
 
 
 def check_undo(ctx, p, key, e, o, t, REPLY):
-    ids = [c[1] for c in p.conds if c[0] == ("field", ("param", "reply"), "id")]
+    ids = decided_ints(p.conds, ("field", ("param", "reply"), "id"), before=p.effects.index(e))
     res = [c[1] for c in p.conds if c[0] == ("field", ("param", "reply"), "result")]
     ra = None
     for c in p.conds:
         if c[0][0] == "load" and c[0][1] == REPLY and c[1] == "Ok":
             ra = ("vfield", c[0], "Ok", "0")
-    good = ra is not None and res == ["Err"] and len(ids) == 1 and ids[0][0] == "=" and \
+    good = ra is not None and res == ["Err"] and len(ids) == 1 and \
         e.key == ("tuple", (("field", ra, "channel"), ("field", ra, "denom"))) and o.atoms == {("field", ra, "amount"): 1} and not t.atoms
     if good:
         ctx.cache.setdefault("undo_ids", set()).add(ids[0])
